@@ -9,6 +9,7 @@ from concurrent.futures import ThreadPoolExecutor
 
 import core
 import trees
+import scale
 import modelrun
 from ref import oracle
 from props import c01
@@ -351,6 +352,88 @@ def case_data(salt, b, pl, size):
     return random.Random(f"{salt}:{b}:{pl}:{size}").randbytes(size)
 
 
+# ------------------------------------------------------------------------------ one file AT SCALE through every hasher
+# Piece lengths of 1 .. 32 MiB and files of 1 .. 65 MiB aimed at read windows of 1 / 4 / 8 / 16 MiB, at reusable zero buffers and
+# at capped padding tables (harness/scale.py says why).  Judged by the reference oracle (C02, C03) / against each other (C10)
+# exactly like the small files; never sent to the extracted models (a `list byte` of that size does not fit).
+MIB = scale.MIB
+SCALE_UNIT_QUICK = [
+    (2 * MIB, 3 * MIB),                 # a multiple of 1 MiB that is not a multiple of the piece length
+    (2 * MIB, 2 * MIB + 100),           # almost a whole piece of padding (more than 1 MiB)
+    (4 * MIB, 5 * MIB + 1),
+    (8 * MIB, 12 * MIB + 7),            # last piece just above 4 MiB
+    (8 * MIB, 12 * MIB),                # file ends exactly 4 MiB into a piece
+    (16 * MIB, 25 * MIB + 123),         # more than 8 MiB in the last piece
+    (16 * MIB, 5 * MIB),                # less than one piece, more than 4 MiB
+    (32 * MIB, 65 * MIB),               # 2048 blocks per piece; 3 pieces; last piece 1 MiB (1984 blocks of padding)
+]
+SCALE_UNIT_MORE = [
+    (MIB, MIB + 1), (MIB, 3 * MIB), (MIB, 2 * MIB + MIB // 2), (2 * MIB, MIB), (2 * MIB, MIB + 5000), (2 * MIB, 4 * MIB),
+    (2 * MIB, 5 * MIB + 77), (4 * MIB, 4 * MIB - 1), (4 * MIB, 9 * MIB), (4 * MIB, 6 * MIB + 1), (8 * MIB, 4 * MIB),
+    (8 * MIB, 4 * MIB + 1), (8 * MIB, 9 * MIB + 5), (8 * MIB, 24 * MIB), (16 * MIB, 24 * MIB), (16 * MIB, 16 * MIB + 1),
+    (16 * MIB, 33 * MIB + MIB - 1), (16 * MIB, 3 * MIB), (32 * MIB, 49 * MIB), (32 * MIB, 16 * MIB + 5), (32 * MIB, 32 * MIB),
+    (32 * MIB, 32 * MIB + B_REAL + 1),
+]
+
+
+def scale_unit_cases(tier, salt):
+    """(piece length, size) of the single files at scale: the aimed ones; in the thorough tier more aimed ones and random
+       sizes k MiB + r (r in {0, 1, 123, one block, 1 MiB - 1, random}) for piece lengths 1 .. 16 MiB"""
+    cases = list(SCALE_UNIT_QUICK)
+    if tier == "thorough":
+        cases += SCALE_UNIT_MORE
+        rng = random.Random(f"{salt}:scale-unit")
+        for _ in range(24):
+            pl = rng.choice([1, 2, 4, 8, 16]) * MIB
+            k = rng.randrange(0, 3 * pl // MIB + 2)
+            r = rng.choice([0, 1, 123, B_REAL, MIB - 1, rng.randrange(MIB)])
+            cases.append((pl, (k * MIB + r) or (pl + MIB + 9)))
+    return cases
+
+
+def classify_scale(size, pl):
+    """boundary classes of one file at scale (all prefixed: they do not count towards the classes required of the small files)"""
+    cl = ["scale: hashers on one file, piece length %d MiB" % (pl // MIB)]
+    tail = size % pl
+    if size % MIB == 0 and tail:
+        cl.append("scale: file size a multiple of 1 MiB but not of the piece length")
+    for w in (1, 4, 8, 16):
+        if tail > w * MIB:
+            cl.append("scale: last piece of a file longer than %d MiB" % w)
+        if 0 < tail < pl - w * MIB:
+            cl.append("scale: more than %d MiB of padding after a file" % w)
+    pieces = -(-size // pl)
+    if pieces >= 3 and not _pow2(pieces):
+        cl.append("scale: piece count not a power of two")
+    if size < pl:
+        cl.append("scale: file shorter than one piece")
+    if size > pl and tail and not _pow2(-(-tail // B_REAL)):
+        cl.append("scale: block count of the last piece not a power of two")
+    return cl
+
+
+def unit_scale(ctx, prop, salt, tmp):
+    """every v2-capable hasher on one file at scale, judged like the small files (reference oracle / each other)"""
+    path = os.path.join(tmp, "scale.bin")
+    for pl, size in scale_unit_cases(ctx.tier, salt):
+        data = case_data(salt, B_REAL, pl, size)
+        with open(path, "wb") as fd:
+            fd.write(data)
+        inp = {"kind": "unit", "B": B_REAL, "piece_length": pl, "size": size, "salt": salt, "patched_constant": False, "scale": True,
+               "case": f"unit:{salt}:{B_REAL}:{pl}:{size}", "ast_changed": ctx.extra.get("ast_changed_since_model", [])}
+        cl = classify_scale(size, pl)
+        ctx.case(key=("unit", B_REAL, pl, size), classes=cl, nontrivial=True)
+        try:
+            res = real_all(path, pl)
+        except Exception as e:  # noqa
+            ctx.fail("hasher-raised", inp, "root, layer, pieces", f"{type(e).__name__}: {e}")
+            continue
+        for kind, h, exp, obs in oracle_problems(prop, res, data, pl):
+            ctx.fail(kind, dict(inp, hasher=HASHER_NAMES.get(h, h)), _short(exp), _short(obs))
+    if os.path.exists(path):
+        os.remove(path)
+
+
 # ------------------------------------------------------------------------------ hashers vs the reference
 def oracle_problems(prop, res, data, pl):
     """violations of the property by the real hashers on one file: list of (kind, hasher, expected, observed)"""
@@ -466,6 +549,8 @@ def unit(ctx, prop, model_ok):
                     spec_lines.append((str(b), str(k), data.hex()))
                     impl.append(res)
                     meta.append((inp, data))
+        # files at scale (real constant; reference / mutual judgement only, nothing for the models)
+        unit_scale(ctx, prop, salt, tmp)
     if not model_ok:
         return
     outs = run_models("v2all", lines)
@@ -592,6 +677,46 @@ def gen_case(salt, i):
     return pl, tree, empty_dirs, opts, set(cl)
 
 
+SCALE0 = 100000       # end-to-end tree numbers from here on are the payloads AT SCALE (harness/scale.py)
+N_TPL = len(scale.TEMPLATES)
+
+
+def scale_indices(tier):
+    """numbers (above SCALE0) of the trees at scale of a run: every aimed template and the 32 MiB one in the quick tier; in the
+       thorough tier also the 32 MiB one as a single file and random shapes of the same kind"""
+    return range(N_TPL + 1) if tier == "quick" else range(40)
+
+
+def gen_scale_case(salt, j):
+    """tree number SCALE0 + j of a run: (pl, tree, empty_dirs, options, classes).  j < N_TPL: the aimed templates of scale.py
+       (piece lengths 2 .. 16 MiB); N_TPL: one 65 MiB file in a directory with 32 MiB pieces (the largest exponent the tool
+       accepts, 2048 blocks per piece); N_TPL + 1: the same as a single file; above: random sizes k MiB + r"""
+    rng = random.Random(f"{salt}:scale:{j}")
+    if j <= N_TPL:
+        pl, tree, cl = scale.gen(rng, j, thorough=True, single_ok=j < N_TPL)
+    elif j == N_TPL + 1:
+        pl, tree, cl = scale.gen(rng, N_TPL, thorough=True, single_ok=True)
+    else:
+        pl, tree, cl = scale.gen(rng, j, thorough=True, single_ok=bool(j % 2))
+    sizes = [len(v) for v in tree.values()]
+    for w in (4, 8, 16):
+        if any(n % pl > w * MIB for n in sizes):
+            cl.add("scale: last piece of a file longer than %d MiB" % w)
+        if any(0 < n % pl < pl - w * MIB for n in sizes):
+            cl.add("scale: more than %d MiB of padding after a file" % w)
+    if any(-(-n // pl) >= 3 and not _pow2(-(-n // pl)) for n in sizes):
+        cl.add("scale: piece count not a power of two")
+    cl.add("scale: single file" if list(tree) == [()] else "scale: directory")
+    opts = dict(rng.choice(OPTIONS))
+    return pl, tree, [], opts, set(cl)
+
+
+def has_changed_part(i):
+    """which trees are also run with the payload changing between construction and the second assemble(): every small tree;
+       at scale every third of the random shapes (the aimed templates are judged as they are)"""
+    return i < SCALE0 or (i - SCALE0 > N_TPL + 1 and (i - SCALE0) % 3 == 0)
+
+
 def write_case(root, tree, empty_dirs):
     trees.write_tree(root, tree)
     for d in empty_dirs:
@@ -603,7 +728,7 @@ _ROOTS = {}
 
 def _root_of(data):
     if data not in _ROOTS:
-        if len(_ROOTS) > 200:
+        if len(_ROOTS) > 200 or sum(len(k) for k in _ROOTS) > (64 << 20):     # the keys are file contents: bounded in bytes too
             _ROOTS.clear()
         _ROOTS[data] = oracle.pieces_root(data)
     return _ROOTS[data]
@@ -672,7 +797,8 @@ def cli_label(v):
             "config": f"cli --config (align = true) --meta-version {ver}"}[how]
 
 
-def cli_create(version, root, out, pl, opts):
+def cli_create(version, root, out, pl, opts, progress="0", pl_arg=None):
+    """`torrentfile create`; progress: --prog 0|1|2; pl_arg: how the piece length is spelled (bytes by default, or the exponent)"""
     core.use_repo_in_process()
     from torrentfile import utils
     from torrentfile.cli import execute
@@ -680,7 +806,7 @@ def cli_create(version, root, out, pl, opts):
     if cache is not None:
         cache.clear()
     version, how = cli_variant(version)
-    argv = ["create", root, "--meta-version", str(version), "--piece-length", str(pl), "-o", out, "--prog", "0"]
+    argv = ["create", root, "--meta-version", str(version), "--piece-length", str(pl_arg or pl), "-o", out, "--prog", str(progress)]
     if how == "align":          # documented as an option of v1 metafiles, accepted for every version: it must not change the others
         argv += ["--align"]
     elif how == "config":
@@ -733,27 +859,49 @@ def build_case(tmp, salt, i, kinds, cli_versions):
        Every creator of `kinds` runs plain, with align=True and re-assembled on the unchanged tree; case['changed'] is a second
        case on a copy of the payload: the creators are constructed, the payload changes (trees.mutate_tree), assemble() is called
        again and write(): judged -- like a fresh create, which is run next to it -- against the copy as it is on disk then"""
-    pl, ltree, empty_dirs, opts, base = gen_case(salt, i)
+    at_scale = i >= SCALE0
+    pl, ltree, empty_dirs, opts, base = gen_scale_case(salt, i - SCALE0) if at_scale else gen_case(salt, i)
     tree = trees.resolve_links(ltree)       # what a reader sees; ltree (with the links) is only what gets written
+    routes = {}
+
+    def route(label, n):
+        """at scale the progress mode rotates over the creates of a tree (0 none, 1 a bar per file, 2 one bar for the torrent);
+           the command line also alternates between the two spellings of the piece length (bytes / exponent 21..25)"""
+        if not at_scale:
+            return {}
+        routes[label] = {"progress": (i + n) % 3}
+        if "cli" in label:
+            routes[label]["piece_length_argument"] = str(pl.bit_length() - 1) if (i + n) % 2 == 0 else str(pl)
+        return routes[label]
     single = list(tree) == [()]
     name = "payload.bin" if single else "payload"
     root = os.path.join(tmp, f"c{i}", name)
     write_case(root, ltree, empty_dirs)
     metas = {}
-    for kind in kinds:
+    for k, kind in enumerate(kinds):
         out = os.path.join(tmp, f"c{i}", kind)
-        _create(metas, kind, lambda: trees.create(kind, root, out + ".torrent", pl, **opts))
-        _create(metas, kind + ALIGN, lambda: trees.create(kind, root, out + "-align.torrent", pl, align=True, **opts))
-        _create(metas, kind + AGAIN, lambda: trees.create(kind, root, out + "-again.torrent", pl, reassemble=True, **opts))
-    for v in cli_versions:
+        _create(metas, kind, lambda: trees.create(kind, root, out + ".torrent", pl, **route(kind, k), **opts))
+        _create(metas, kind + ALIGN, lambda: trees.create(kind, root, out + "-align.torrent", pl, align=True,
+                                                          **route(kind + ALIGN, k + 1), **opts))
+        _create(metas, kind + AGAIN, lambda: trees.create(kind, root, out + "-again.torrent", pl, reassemble=True,
+                                                          **route(kind + AGAIN, k + 2), **opts))
+    for k, v in enumerate(cli_versions):
         out = os.path.join(tmp, f"c{i}", f"cli{v}.torrent")
-        _create(metas, cli_label(v), lambda: cli_create(v, root, out, pl, opts))
+        if at_scale:
+            r = route(cli_label(v), k)
+            _create(metas, cli_label(v), lambda: cli_create(v, root, out, pl, opts, progress=r["progress"],
+                                                            pl_arg=r["piece_length_argument"]))
+        else:
+            _create(metas, cli_label(v), lambda: cli_create(v, root, out, pl, opts))
     disk = oracle.walk_tree(root)
     order = [comps for comps, _ in disk]
     classes = classify_tree(tree, pl, empty_dirs, order if not single else [], base)
     case = {"pl": pl, "tree": tree, "root": root, "single": single, "metas": metas, "opts": opts,
             "disk": disk, "classes": classes, "empty_dirs": empty_dirs, "i": i, "salt": salt,
-            "kinds": list(kinds), "cli_versions": list(cli_versions), "changed": None, "links": trees.link_summary(ltree)}
+            "kinds": list(kinds), "cli_versions": list(cli_versions), "changed": None, "links": trees.link_summary(ltree),
+            "routes": routes}
+    if not has_changed_part(i):
+        return case
     # the payload changes between construction and the second assemble()
     rng = random.Random(f"{salt}:e2e-change:{i}")
     lnew, how = trees.mutate_tree(rng, ltree, pl)
@@ -772,6 +920,7 @@ def build_case(tmp, salt, i, kinds, cli_versions):
         _create(metas2, kind, lambda: trees.create(kind, root2, out + ".torrent", pl, **opts))
     disk2 = oracle.walk_tree(root2)
     case["changed"] = dict(case, tree=new, root=root2, metas=metas2, disk=disk2, changed=None, change=how, tree_at_construction=tree,
+                           routes={},
                            links=trees.link_summary(lnew),
                            classes=classify_tree(new, pl, empty_dirs, [c for c, _ in disk2] if not single else [], set()))
     return case
@@ -783,6 +932,9 @@ def case_input(case, kind):
            "tree": trees.tree_summary(case["tree"]), "empty_dirs": ["/".join(d) for d in case["empty_dirs"]],
            "options": case["opts"], "creators_run": case["kinds"], "cli_versions": case["cli_versions"],
            "case": f"e2e:{case['salt']}:{case['i']}:{kind}", "ast_changed": case.get("ast_changed", [])}
+    if case["i"] >= SCALE0:     # a payload at scale (gen_scale_case); how this creator was run on it
+        inp["scale"] = scale.summary(case["pl"], case["tree"])["files"]
+        inp.update(case.get("routes", {}).get(kind.split(" vs ")[0], {}))      # of a pair (C10): the route of the first one
     if case.get("links"):       # symbolic links of the payload: {path of the link: text of the link}; "tree" shows them as files
         inp["symlinks"] = case["links"]
     if case.get("change"):
@@ -849,25 +1001,35 @@ def check_c02(meta, case):
                         + (" (duplicates)" if len(got) != len(set(got)) else ""))
     roots = {c: r for c, _, r in leaves}
     expected_layers = {}
+    # the reference values of a file are computed once per built case: every metafile of the case is judged after the last
+    # creator ran, against the same files on disk (at scale a tree is hashed once for all the creators that ran on it)
+    ref = case.setdefault("_ref", {})
     for comps, p in files:
-        data = oracle.read(p)
+        if p not in ref:
+            data = oracle.read(p)
+            top = layer = None
+            if data:
+                lv = oracle.leaves(data)
+                top, bottom = oracle.root_topdown(lv), oracle.root_bottomup(lv)
+                if top != bottom:
+                    raise AssertionError("reference formulations disagree")
+                if len(data) > pl:
+                    layer = oracle.piece_layer(data, pl)
+                    if oracle.root_from_layer(layer, pl) != top:
+                        raise AssertionError("reference: root recomputed from the layer differs")
+                    layer = b"".join(layer)
+            ref[p] = (len(data), top, layer)
+        size, top, layer = ref[p]
         r = roots.get(comps)
-        if not data:
+        if not size:
             if r is not None:
                 problems.append(f"empty file {'/'.join(comps)} carries a pieces root")
             continue
-        lv = oracle.leaves(data)
-        top, bottom = oracle.root_topdown(lv), oracle.root_bottomup(lv)
-        if top != bottom:
-            raise AssertionError("reference formulations disagree")
         if r != top:
-            problems.append(f"pieces root of {'/'.join(comps)} ({len(data)} bytes) is "
+            problems.append(f"pieces root of {'/'.join(comps)} ({size} bytes) is "
                             f"{r.hex() if isinstance(r, bytes) else r}, BEP 52 root is {top.hex()}")
-        if len(data) > pl:
-            layer = oracle.piece_layer(data, pl)
-            if oracle.root_from_layer(layer, pl) != top:
-                raise AssertionError("reference: root recomputed from the layer differs")
-            expected_layers[top] = b"".join(layer)
+        if layer is not None:
+            expected_layers[top] = layer
     layers = meta.get(b"piece layers")
     if not isinstance(layers, dict):
         problems.append("no top-level piece layers dictionary")
@@ -1045,6 +1207,10 @@ def _replay_e2e(tag, prop, inp):
        the two), the creators and command lines the run used on it, judged again"""
     kinds = inp.get("creators_run") or list(E2E_KINDS[prop])
     cli = tuple(inp["cli_versions"]) if "cli_versions" in inp else (E2E_CLI[prop] if inp["index"] % 3 == 2 else ())
+    if inp["index"] >= SCALE0:
+        print(f"{tag} a payload at scale (tree number {inp['index'] - SCALE0} of harness/props/v2_common.gen_scale_case): contents, "
+              "piece length, options and the route of every creator (progress mode, spelling of --piece-length) are functions of "
+              "the recorded salt and number")
     with core.Scratch("vreplay_") as tmp:
         os.environ["HOME"] = tmp
         case = build_case(tmp, inp["salt"], inp["index"], kinds, cli)
@@ -1055,7 +1221,8 @@ def _replay_e2e(tag, prop, inp):
         if case.get("links"):
             print(f"{tag} symbolic links inside the payload (link: text of the link; shown as files in the tree): {case['links']}")
         print(f"{tag} tree {trees.tree_summary(case['tree'])}, empty directories {inp.get('empty_dirs')}, piece length {case['pl']}, "
-              f"options {case['opts']}; creators {list(case['metas'])}")
+              f"options {case['opts']}; creators {list(case['metas'])}"
+              + (f"; routes {case['routes']}" if case.get("routes") else ""))
         if case.get("changed"):
             print(f"{tag} a copy of it changed between construction and the second assemble() ({case['changed']['change']}) to "
                   f"{trees.tree_summary(case['changed']['tree'])}; creators {list(case['changed']['metas'])}")
@@ -1240,18 +1407,33 @@ def e2e(ctx, prop):
     core.use_repo_in_process()
     with core.Scratch("v" + prop.lower() + "e_") as tmp:
         os.environ["HOME"] = tmp
-        for i in range(n):
-            cli = E2E_CLI[prop] if cli_case(i) else ()
+        # the small trees, then the payloads at scale (piece lengths 2 .. 32 MiB): every creator and every command line of the
+        # property on each of them, same judge
+        for i in list(range(n)) + [SCALE0 + j for j in scale_indices(ctx.tier)]:
+            cli = E2E_CLI[prop] if (i >= SCALE0 or cli_case(i)) else ()
             case = build_case(tmp, salt, i, E2E_KINDS[prop], cli)
-            case["ast_changed"] = case["changed"]["ast_changed"] = ctx.extra.get("ast_changed_since_model", [])
-            for c in sorted(case["classes"]):          # classes are counted once per content tree
+            states = [case] + ([case["changed"]] if case["changed"] else [])
+            for cs in states:
+                cs["ast_changed"] = ctx.extra.get("ast_changed_since_model", [])
+            at_scale = ["scale: "] if i >= SCALE0 else []
+            for c in sorted(case["classes"]):          # classes are counted once per content tree; those of a tree at scale
+                c = c if c.startswith("scale: ") or not at_scale else "scale: " + c       # do not count for the small ones
                 ctx.classes[c] = ctx.classes.get(c, 0) + 1
-            for c in sorted(case["changed"]["classes"]):
-                ctx.classes["after the payload changed: " + c] = ctx.classes.get("after the payload changed: " + c, 0) + 1
-            for cs in (case, case["changed"]):
+            for c in sorted(case["changed"]["classes"]) if case["changed"] else ():
+                c = "after the payload changed: " + c
+                c = "scale: " + c if at_scale else c
+                ctx.classes[c] = ctx.classes.get(c, 0) + 1
+            for cs in states:
                 for kind in cs["metas"]:
                     inp = case_input(cs, kind)
-                    ctx.case(key=("e2e", i, kind, cs["pl"], tuple(sorted(inp["tree"].items()))), classes=["creator: " + kind],
+                    classes = ["creator: " + kind]
+                    if at_scale and "progress" in inp:
+                        classes = ["scale: creator: " + kind, f"scale: route {'command line' if 'cli' in kind else 'library'} "
+                                   f"progress {inp['progress']}"]
+                        if "piece_length_argument" in inp:
+                            classes.append("scale: --piece-length given as " +
+                                           ("the exponent" if int(inp["piece_length_argument"]) < 64 else "bytes"))
+                    ctx.case(key=("e2e", i, kind, cs["pl"], tuple(sorted(inp["tree"].items()))), classes=classes,
                              nontrivial=bool(cs["classes"]), sample=inp if i == 1 and kind == E2E_KINDS[prop][0] else None)
             for kind_, inp, exp, obs in judge_e2e(prop, case):
                 ctx.fail(kind_, inp, exp, obs)
